@@ -133,6 +133,7 @@ def run(tier):
             continue
         prev = {"L": None, "R": None}
         prevalid = True
+        again = None
         for name, c in steps:
             kind = name.split(".")[0]
             try:
@@ -162,6 +163,8 @@ def run(tier):
                         "hasdisp": bool(has_disp), "first": prev[side] is None,
                         "before": prev[side] if prev[side] is not None else {"vm": vm}, "after": after}
                 cases.append(case)
+                if kind == "disparity" and side == "L" and again is None:
+                    again = (dict(case), dict(c), name)
                 meta[cid] = {"stage": "pipeline", "pipeline": names, "at": name, "kind": kind, "side": side,
                              "measure": info["measure"], "subpix": s, "invalid_disparity": str(info["inv"]),
                              "repeat_index": int(name.split(".")[1]) if "." in name and name.split(".")[1].isdigit() else 0,
@@ -169,6 +172,21 @@ def run(tier):
                 prev[side] = after
             if kind == "validation":
                 prevalid = False
+        # API history: the disparity step applied AGAIN to the machine's cost volume, after the later steps worked on the first
+        # map, must give what it gave the first time (a fresh map carries no bit of a step that has not run on it)
+        if again is not None and r.pos == len(steps):
+            try:
+                from pandora import disparity as pdisp
+                tmpl, dcfg, dname = again
+                d2 = pdisp.AbstractDisparity(**dcfg).to_disp(r.m.left_cv)
+                n += 1
+                cid = f"f{n}"
+                cases.append(dict(tmpl, id=cid, after={"vm": enc_int(d2["validity_mask"].data), "disp": enc_scaled(d2["disparity_map"].data, 1024, tol=2.0)}))
+                meta[cid] = {"stage": "pipeline", "pipeline": names, "at": dname + " (applied again after the whole pipeline)", "kind": "disparity", "side": "L",
+                             "measure": info["measure"], "subpix": s, "invalid_disparity": str(info["inv"]), "repeat_index": 1, "config": dcfg}
+            except Exception as exc:  # pylint: disable=broad-except
+                chk.violation("total", {"step": "disparity_again", "exception": type(exc).__name__}, {"pipeline": names, "exception": repr(exc)[:300]},
+                              f"the disparity step applied again to the cost volume raised {exc!r}")
         try:
             r.close()
         except Exception:  # pylint: disable=broad-except
